@@ -465,6 +465,7 @@ func (e *Engine) genFunction(fn *ssa.Function) (fc *fnCtx, err error) {
 		fr.typeInv(st, v, srt, p.Type(), true)
 		args = append(args, v)
 	}
+	fvNames := map[string]TV{}
 	for i, fv := range fn.FreeVars {
 		// verifying a closure standalone: free variables are unknown cells
 		srt := e.u.sortOf(fv.Type())
@@ -472,6 +473,20 @@ func (e *Engine) genFunction(fn *ssa.Function) (fc *fnCtx, err error) {
 		fr.regs[fv] = v
 		fc.sc.assume(fmt.Sprintf("(and (> %s 0) (< %s %s))", v, v, st.alloc))
 		_ = i
+		// contract expressions may name a captured variable: its value is the content of the cell
+		if pt, ok := fv.Type().Underlying().(*types.Pointer); ok {
+			et := pt.Elem()
+			es := e.u.sortOf(et)
+			if e.u.structInfoOf(et) == nil {
+				cell := app("select", fc.hget(st, "C|"+es), v)
+				cv := fc.sc.define("fvval_"+fv.Name(), es, cell)
+				fr.typeInv(st, cv, es, et, true)
+				fvNames[fv.Name()] = TV{T: cv, Sort: es, Typ: et}
+			}
+		}
+	}
+	for n, tv := range fvNames {
+		fr.params[n] = tv
 	}
 	fr.bindParams(args)
 	fr.params["fn"] = TV{T: e.u.fnID(fc.key), Sort: "Int"}
